@@ -15,7 +15,8 @@ BOOL = ("bool: flipped in the lattice stream (all 211 boolean fields of the tree
 GROUP = ("group: assigned as a value in params histories (fresh instance through its constructor); read through flagsOf", None)
 COLOR = ("style: colour drawn from valid matplotlib colour forms (hex, hex+alpha, name, single letter)", COLORS)
 PARAM_FIELDS = {
-    "time_begin": ("window: around every initial / final time step, set at top level, on sub-groups, through the constructor, "
+    "time_begin": ("window: before / at / after every horizon boundary of every obstacle (initial step, first and last prediction step), inside gaps "
+                   "and holes, set at top level, on sub-groups, through the constructor, "
                    "re-set on one shared object between frames", None),
     "time_end": ("window: begin, begin+1..3, another horizon point, begin+40, begin-1", None),
     "antialiased": BOOL, "axis_visible": BOOL, "colormap_tangent": BOOL, "draw_arrow": BOOL, "draw_border_vertices": BOOL,
@@ -104,7 +105,7 @@ CTORS = {
                        "initial_center_lanelet_ids": "not read by drawing", "initial_shape_lanelet_ids": "not read by drawing",
                        "initial_signal_state": "None / random signal flags", "signal_series": "None / 0..3 states"},
     "DynamicObstacle": {"obstacle_id": "100.., 0", "obstacle_type": "all types (icon types in focus cases)", "obstacle_shape": "as static",
-                        "initial_state": "as static", "prediction": "None / trajectory (1..6 states) / set-based (int and interval steps, holes, shuffled list); "
+                        "initial_state": "as static", "prediction": "None / trajectory (1..6 states, starting directly after the initial state or after a gap) / set-based (int and interval steps, gap, holes, shuffled list); "
                                                                     "replaced / dropped / trajectory re-assigned through the setters between frames",
                         "initial_center_lanelet_ids": "not read by drawing", "initial_shape_lanelet_ids": "not read by drawing",
                         "initial_signal_state": "None / flags", "signal_series": "None / 0..n+1 states",
@@ -120,7 +121,9 @@ CTORS = {
                                        "take the shapes from occupancy_at_time all the same"},
     "SetBasedPrediction": {"initial_time_step": "first occupancy step", "occupancy_set": "1..5 occupancies, increasing or shuffled; [] only as outside-quantifier case"},
     "Occupancy": {"time_step": "int / Interval", "shape": "all shapes"},
-    "Trajectory": {"initial_time_step": "initial step + 1", "state_list": "KSState with exact / uncertain position, orientation, velocity"},
+    "Trajectory": {"initial_time_step": "initial step + 1 + gap, gap 0 / 1 / 2 / 4 / 7 (a prediction that starts later leaves steps without "
+                                        "occupancy and state after the initial one; gaps shorter and longer than the trajectory; buckets "
+                                        "obst:dyn-traj-gap, horizon:*, gap-obstacle:*, plain:in-gap/traj)", "state_list": "KSState with exact / uncertain position, orientation, velocity"},
     "Rectangle": {"length": "1..4.5", "width": "0.5..2", "center": "anywhere", "orientation": "0, 0.3, -1.2, 3.0"},
     "Circle": {"radius": "0.5..2.5", "center": "anywhere"}, "Polygon": {"vertices": "3..5 vertices, open"},
     "ShapeGroup": {"shapes": "1..3 primitive shapes"},
